@@ -38,7 +38,12 @@ void harness(void)
 #ifdef VF_EXACT_OBJ      /* object of exactly n+c+1 bytes: over/under-reads are out of bounds */
     VF_ASSUME(n == VF_N && c == VF_CTX);
 #endif
-    unsigned char s[VF_N + VF_CTX + 1];
+    unsigned char buf[VF_N + VF_CTX + 1];
+#ifdef VF_TAIL_ALIGN     /* the terminator is the last byte of the object: any read past it is out of bounds */
+    unsigned char *s = buf + ((VF_N + VF_CTX) - (n + c));
+#else                    /* the first byte is the first byte of the object: any read before it is out of bounds */
+    unsigned char *s = buf;
+#endif
     for (unsigned i = 0; i < n + c; i++) {
         s[i] = nondet_uchar();
         VF_ASSUME(s[i] != 0);
